@@ -126,23 +126,35 @@ def run_binary(outcome, tier, seed):
     d = os.path.join(common.BUILD, "run", "C04_bin")
     shutil.rmtree(d, ignore_errors=True)
     os.makedirs(d)
-    n = 0
     ext = {"json": "json", "yaml": "yaml", "toml": "toml", "msgpack": "msgpack"}
+    jobs = []
     for i, (fmt, data) in enumerate(adversarial(tier)):
         p = os.path.join(d, "adv%d.%s" % (i, ext[fmt]))
         open(p, "wb").write(data)
         for argv, stdin in (([p], None), (["-f", fmt], data), (["-t", "yaml", p], None), (["-t", "msgpack", "-f", fmt], data)):
             if tier == "quick" and len(data) > 50000 and argv[0] != p:
                 continue
-            try:
-                r = subprocess.run([common.XT_DEBUG] + argv, input=stdin, stdout=subprocess.DEVNULL, stderr=subprocess.PIPE, timeout=300)
-                rc = r.returncode
-            except subprocess.TimeoutExpired:
-                rc = "timeout"
-            n += 1
-            if rc not in (0, 1):
-                outcome.oracle_failures.append({"what": "the xt binary did not exit with status 0 or 1 (wait status %s)" % rc, "argv": argv,
-                                                "format": fmt, "input_len": len(data), "input_head_hex": data[:64].hex()})
+            jobs.append((fmt, data, argv, stdin))
+    bad = []
+
+    def one(job):
+        fmt, data, argv, stdin = job
+        if len(bad) >= 3:
+            return None      # enough failing runs to report; do not wait for more timeouts
+        try:
+            r = subprocess.run([common.XT_DEBUG] + argv, input=stdin, stdout=subprocess.DEVNULL, stderr=subprocess.PIPE, timeout=300)
+            rc = r.returncode
+        except subprocess.TimeoutExpired:
+            rc = "timeout"
+        if rc not in (0, 1):
+            bad.append({"what": "the xt binary did not exit with status 0 or 1 (wait status %s)" % rc, "argv": argv,
+                        "format": fmt, "input_len": len(data), "input_head_hex": data[:64].hex()})
+        return rc
+
+    import concurrent.futures
+    with concurrent.futures.ThreadPoolExecutor(8) as ex:
+        n = sum(1 for rc in ex.map(one, jobs) if rc is not None)
+    outcome.oracle_failures.extend(bad)
     shutil.rmtree(d, ignore_errors=True)
     outcome.evaluations += n
     outcome.distinct_nontrivial += n
@@ -170,8 +182,14 @@ def run(outcome, tier, seed):
         outcome.extra["exhaustive"] = True
     if outcome.hooks_available:
         shared.msgpack_correspondence(outcome, tier, seed, oracle=False)
-    run_sessions(outcome, tier, seed)
-    run_binary(outcome, tier, seed)
+    if outcome.oracle_failures:
+        outcome.notes.append("mutation fuzz skipped: the token-sequence run already exhibits a failing input")
+    else:
+        run_sessions(outcome, tier, seed)
+    if outcome.oracle_failures:
+        outcome.notes.append("binary runs skipped: the in-process runs already exhibit a failing input")
+    else:
+        run_binary(outcome, tier, seed)
     outcome.add_sample({"shape": "[" * 20 + "... (100000 deep)", "formats": "json/yaml/toml/msgpack", "expect": "error value, no crash"})
 
 
